@@ -319,7 +319,14 @@ class Check:
             self.corr_mismatch += 1
         elif kind == 'oracle':
             self.oracle_fail += 1
-        if len(self.violations) < 20:
+        # concrete failing inputs are reported first; broken proofs / correspondence after them
+        if found:
+            n = sum(1 for v in self.violations if v[3])
+            if n < 20:
+                self.violations.insert(n, (kind, desc, replay_lines, found))
+                if len(self.violations) > 20:
+                    self.violations.pop()
+        elif len(self.violations) < 20:
             self.violations.append((kind, desc, replay_lines, found))
 
     def write_evidence(self, build_failed=False):
